@@ -1,0 +1,68 @@
+//go:build verif
+
+package certurl
+
+// Contracts for govc (comment-only; compiled only with -tags verif).
+
+// sctSum(a, o, k): serialized size of the first k SCTs, each with its 2-byte
+// length prefix (mathematical integer).
+//@ uf sctSum([1][]byte, int, int) mathint
+//@ axiom sctSum_zero: forall a [1][]byte, o int :: {sctSum(a, o, 0)} sctSum(a, o, 0) == 0
+//@ axiom sctSum_nonneg: forall a [1][]byte, o int, k int :: {sctSum(a, o, k)} k >= 0 ==> sctSum(a, o, k) >= 0
+//@ axiom sctSum_step: forall a [1][]byte, o int, k int :: {sctSum(a, o, k), a[ix(o, k)]} k >= 0 && len(a[ix(o, k)]) >= 0 ==> sctSum(a, o, k + 1) == sctSum(a, o, k) + len(a[ix(o, k)]) + 2
+
+// SerializeSCTList: an RFC 6962 vector. Succeeds exactly when every element
+// and the total fit in 16 bits; then the output is 2 + total bytes long and
+// starts with the big-endian total.
+//@ func SerializeSCTList
+//@   props C17 C10
+//@   returns (out, err)
+//@   requires len(scts) <= 1099511627776
+//@   ensures[error-iff-too-large] err == nil <==> ((forall i int :: 0 <= i && i < len(scts) ==> len(scts[i]) <= 65535) && sctSum(arr(scts), off(scts), len(scts)) <= 65535)
+//@   ensures[length] err == nil ==> len(out) == 2 + sctSum(arr(scts), off(scts), len(scts))
+//@   ensures[total-prefix] err == nil ==> out[0] == byte(sctSum(arr(scts), off(scts), len(scts)) >> 8) && out[1] == byte(sctSum(arr(scts), off(scts), len(scts)))
+//@   assigns nothing
+//@   loop 0:
+//@     invariant -1 <= rangeindex && total_length == sctSum(arr(scts), off(scts), rangeindex + 1) && total_length >= 0 && total_length <= (rangeindex + 1) * 65537
+//@     invariant forall i int :: 0 <= i && i <= rangeindex ==> len(scts[i]) <= 65535
+//@     decreases len(scts) - rangeindex
+//@   loop 1:
+//@     invariant -1 <= rangeindex && spos(buf) == 0 && send(buf) == 2 + sctSum(arr(scts), off(scts), rangeindex + 1) && !failed(buf)
+//@     invariant sdata(buf)[0] == byte(total_length >> 8) && sdata(buf)[1] == byte(total_length)
+//@     decreases len(scts) - rangeindex
+
+// Validate: exactly the chains whose first element carries an OCSP response
+// and whose later elements carry none.
+//@ func (CertChain).Validate
+//@   props C17
+//@   requires forall i int :: 0 <= i && i < len(certChain) ==> certChain[i] != nil
+//@   ensures[iff] result == nil <==> (len(certChain) > 0 && certChain[0].OCSPResponse != nil && (forall i int :: 1 <= i && i < len(certChain) ==> certChain[i].OCSPResponse == nil))
+//@   assigns nothing
+//@   loop 0:
+//@     invariant -1 <= rangeindex
+//@     invariant rangeindex >= 0 ==> certChain[0].OCSPResponse != nil
+//@     invariant forall j int :: 1 <= j && j <= rangeindex ==> certChain[j].OCSPResponse == nil
+//@     decreases len(certChain) - rangeindex
+
+// Write: nothing is written unless the chain is valid; a failing writer
+// surfaces as an error.
+//@ func (CertChain).Write
+//@   props C17 C19
+//@   requires w != nil && !failed(w)
+//@   requires forall i int :: 0 <= i && i < len(certChain) ==> certChain[i] != nil && certChain[i].Cert != nil
+//@   ensures[write-failure-surfaces] failed(w) ==> result != nil
+//@   ensures[invalid-chain-writes-nothing] !(len(certChain) > 0 && certChain[0].OCSPResponse != nil && (forall i int :: 1 <= i && i < len(certChain) ==> certChain[i].OCSPResponse == nil)) ==> result != nil && accepted(w) == old(accepted(w)) && !failed(w)
+//@   ensures accepted(w) >= old(accepted(w)) && accepted(w) - wrapped(w) == old(accepted(w) - wrapped(w))
+//@   assigns accepted(w), failed(w), content(w), wrapped(w), all(spos)
+//@   loop 0:
+//@     invariant enc != nil && enc.w == w && !failed(w)
+//@     invariant accepted(w) >= old(accepted(w)) && accepted(w) - wrapped(w) == old(accepted(w) - wrapped(w))
+
+// EncodeTo: one canonical map with "cert" always and "ocsp"/"sct" exactly
+// when present.
+//@ func (*AugmentedCertificate).EncodeTo
+//@   props C17 C19
+//@   requires enc != nil && enc.w != nil && !failed(enc.w) && ac.Cert != nil
+//@   ensures[write-failure-surfaces] failed(enc.w) ==> result != nil
+//@   ensures accepted(enc.w) >= old(accepted(enc.w)) && accepted(enc.w) - wrapped(enc.w) == old(accepted(enc.w) - wrapped(enc.w))
+//@   assigns accepted(enc.w), failed(enc.w), content(enc.w), wrapped(enc.w), all(spos)
